@@ -81,3 +81,68 @@ Proof. exact channels_owner_old_not_disciplined. Qed.
 Theorem C13_source_no_map_guard_across_await :
   NW.Gen.LockLint.guard_across_await = [] /\ (20 <=? NW.Gen.LockLint.map_access_sites)%N = true.
 Proof. split; reflexivity. Qed.
+
+(* ---- deadlock freedom, channel locks included (types pasted from Proofs/LockProgress.v by tools/pin.py) ---- *)
+From NW Require Import Proofs.LockProgress.
+
+Theorem C13_deadlock_free_from_every_reachable_state :
+  forall (wk : bool) (ts : list (nat * program)) (evs : list sev),
+    Forall (fun tp : nat * program => disciplined (snd tp) = true) ts ->
+    exists evs' : list sev,
+      Forall (ev_ok wk) evs' /\ all_done (fst (lrun (fst (lrun (mk_tasks ts) evs)) evs')).
+Proof. exact deadlock_free. Qed.
+
+Theorem C13_current_handlers_deadlock_free :
+  forall (wk : bool) (hs : list (nat * handler)) (evs : list sev),
+    exists evs' : list sev,
+      Forall (ev_ok wk) evs' /\
+      all_done
+        (fst
+           (lrun
+              (fst
+                 (lrun
+                    (mk_tasks
+                       (map (fun th : nat * handler => (fst th, handler_prog (snd th))) hs)) evs))
+              evs')).
+Proof. exact handlers_deadlock_free. Qed.
+
+Theorem C13_progress_or_done :
+  forall (wk : bool) (s : lstate),
+    Inv2 s ->
+    all_done s \/
+    (exists (e : sev) (s' : lstate), ev_ok wk e /\ lstep s e = LOk s' /\ (M s' < M s)%nat).
+Proof. exact progress. Qed.
+
+Theorem C13_extended_invariant_preserved :
+  forall (s : lstate) (e : sev) (s' : lstate), Inv2 s -> lstep s e = LOk s' -> Inv2 s'.
+Proof. exact lstep_inv2. Qed.
+
+(* non-vacuity of the deadlock-freedom theorem: a cross pattern over two channels and two threads, stopped half-way *)
+Example C13_deadlock_free_smoke :
+  let ts := [(0, p_join 1); (0, p_leave 2); (1, p_join 2); (1, p_leave 1)] in
+  let mid := fst (lrun (mk_tasks ts) [Run 0; Run 0; Run 0; Run 2; Run 2; Run 2; Run 1; Run 3]) in
+  ~ all_done mid /\ exists evs', Forall (ev_ok true) evs' /\ all_done (fst (lrun mid evs')).
+Proof. exact deadlock_free_smoke. Qed.
+
+(* "at most one channel lock at a time" — the part of the discipline deadlock freedom rests on — read off the
+   CURRENT source: no per-channel lock guard is alive where another channel lock is taken (directly or through a
+   call of a function of the channel manager that takes one), and the manager-wide lock is never write-locked. *)
+Theorem C13_source_one_channel_lock_at_a_time :
+  NW.Gen.LockLint.chan_lock_nested = [] /\ (8 <=? NW.Gen.LockLint.chan_lock_sites)%N = true.
+Proof. split; reflexivity. Qed.
+
+(* the shared message-buffer pool cannot be exhausted by connections whose writes do not complete (Model/WriteBudget.v),
+   under the conditions read off the current source (coq/Gen/Headroom.v) *)
+From NW Require Import Model.WriteBudget Proofs.WriteBudgetProofs Gen.Headroom.
+
+Theorem C13_message_pool_never_exhausted :
+  forall (c : wcfg) (evs : list wev), guarded c = true -> snd (wrun c [] evs) = None.
+Proof. exact guarded_never_waits. Qed.
+
+Theorem C13_source_write_budget :
+  (2 <=? NW.Gen.Headroom.pool_per_connection)%N = true /\
+  (1 <=? NW.Gen.Headroom.permits_per_iovs)%N = true /\
+  (NW.Gen.Headroom.permits_per_iovs <=? NW.Gen.Headroom.pool_per_iovs)%N = true /\
+  NW.Gen.Headroom.extras_guarded = true /\
+  NW.Gen.Headroom.permits_kept_until_release = true.
+Proof. repeat split; reflexivity. Qed.
